@@ -221,7 +221,8 @@ PostCtor(st, bp, s) ==
                ELSE st1
     \* a GIFT variable, and a variable XTRA built with AddTermToEquation from a product of two names
     IN IF d.gift /\ d.kind = "RestOfWorld" THEN SetVar(st2, s, "GIFT", DAtom)     \* a constant amount
-       ELSE IF d.gift THEN SetVar(SetVar(st2, s, "GIFT", DAtom), s, "XTRA", DAtom) ELSE st2
+       \* ... and a variable TWICE whose definition is one requested name, to which the same name is added as a term
+       ELSE IF d.gift THEN SetVar(SetVar(SetVar(st2, s, "GIFT", DAtom), s, "XTRA", DAtom), s, "TWICE", DAtom) ELSE st2
 
 (* statements that need two objects to exist (issued after all declarations): AddMarket on a multi-output business *)
 RECURSIVE LateMarkets(_, _, _)
